@@ -38,6 +38,65 @@ def herm_defect(M):
     return float(max(np.max(np.abs(M[x] - M[x].conj().T)) for x in range(M.shape[0])))
 
 
+def collapse_probe(res, rng, tier, bad):
+    import mudslide
+    from mudslide.models import scattering_models as M
+    from mudslide.tracer import YAMLTrace, InMemoryTrace
+    # collapse on two-state models, both trace back-ends
+    tmproot = os.path.join(OUT, "tmp", "C11"); shutil.rmtree(tmproot, ignore_errors=True); os.makedirs(tmproot)
+    for k, backend in enumerate(["memory", "yaml"] * (1 if tier == "quick" else 4)):
+        mname = ["simple", "dual", "extended"][k % 3]
+        tracer = InMemoryTrace() if backend == "memory" else YAMLTrace(base_name="ta", location=tmproot, log_pitch=8)
+        # thresholds: no hops except at the two forced-collapse steps, where a hop is attempted in the same step
+        zl = [2.0] * 100; zl[20] = 1e-12; zl[50] = 1e-12
+        integ = ["exp", "rk4"][k % 2]
+        tr = mudslide.AugmentedFSSH(M[mname](), [-3.0], [12.0], 0, dt=10.0, max_steps=80, tracer=tracer, zeta_list=zl, seed_sequence=rng.randrange(2 ** 31),
+                                    augmented_integration=integ)
+        state = {"collapsed": 0}
+        # every moment propagation must depend only on the values of its inputs (no hidden shared state):
+        # replay each call on a shallow twin holding private copies and compare
+        import copy as _cp
+        def purity_wrap(name, tr=tr):
+            orig = getattr(tr, name)
+            cls_fn = getattr(mudslide.AugmentedFSSH, name)
+            def wrapped(le, te):
+                twin = _cp.copy(tr); twin.delR = tr.delR.copy(); twin.delP = tr.delP.copy(); twin.rho = tr.rho.copy()
+                twin.velocity = tr.velocity.copy(); twin.last_velocity = tr.last_velocity.copy()
+                orig(le, te)
+                cls_fn(twin, le, te)
+                if not (np.allclose(twin.delR, tr.delR, rtol=1e-10, atol=1e-14) and np.allclose(twin.delP, tr.delP, rtol=1e-10, atol=1e-14)):
+                    bad.append(dict(failed="moment propagation after a collapse/hop depends only on the current moments, density matrix and electronics (%s on the live object differs from the same call on private copies)" % name,
+                                    case=dict(model=mname, step=tr.nsteps, backend=backend, integrator=integ)))
+            setattr(tr, name, wrapped)
+        purity_wrap("advance_delR"); purity_wrap("advance_delP")
+        orig_gamma = tr.gamma_collapse
+        tr.gamma_collapse = lambda el, og=orig_gamma: np.abs(og(el)) + (1.0 if tr.nsteps in (20, 50) else 0.0) * (np.arange(2) != tr.state)
+        orig_sh = tr.surface_hopping
+        def sh(le, te, tr=tr, orig_sh=orig_sh, state=state):
+            force = tr.nsteps in (20, 50)
+            orig_sh(le, te)
+            if force:
+                want = np.zeros((2, 2), dtype=complex); want[tr.state, tr.state] = 1.0
+                if not (np.array_equal(tr.rho, want) and np.all(tr.delR == 0) and np.all(tr.delP == 0)):
+                    bad.append(dict(failed="after a collapse the moments are zero and the density matrix is the pure active state", case=dict(model=mname, step=tr.nsteps, backend=backend)))
+                state["collapsed"] += 1
+        tr.surface_hopping = sh
+        try:
+            log = tr.simulate()
+        except Exception as ex:
+            bad.append(dict(failed="collapse could not be recorded with the %s trace back-end (%s: %s)" % (backend, type(ex).__name__, ex), case=dict(model=mname))); continue
+        if backend == "memory":
+            nev = len(log.events.get("collapse", []))
+        else:
+            import yaml
+            evs = yaml.safe_load(open(os.path.join(tmproot, log.event_log))) or []
+            nev = sum(1 for e in evs if "removed" in e)
+        res.count("collapse/" + backend, state["collapsed"])
+        if nev < state["collapsed"] or state["collapsed"] == 0:
+            bad.append(dict(failed="every collapse is recorded as an event in the trace store in use (%d collapses forced, %d events, %s)" % (state["collapsed"], nev, backend), case=dict(model=mname)))
+    shutil.rmtree(tmproot, ignore_errors=True)
+
+
 def run(tier, seed):
     import mudslide
     from mudslide.models import scattering_models as M
@@ -107,59 +166,7 @@ def run(tier, seed):
         res.count("integrator-agreement-probe")
         if not (diffs[2] < 0.6 * diffs[0] + 1e-13):
             bad.append(dict(failed="the two moment integrators agree as the time step goes to zero (differences %r for dt 0.4, 0.2, 0.1)" % diffs, case=dict(n=n)))
-    # collapse on two-state models, both trace back-ends
-    tmproot = os.path.join(OUT, "tmp", "C11"); shutil.rmtree(tmproot, ignore_errors=True); os.makedirs(tmproot)
-    for k, backend in enumerate(["memory", "yaml"] * (1 if tier == "quick" else 4)):
-        mname = ["simple", "dual", "extended"][k % 3]
-        tracer = InMemoryTrace() if backend == "memory" else YAMLTrace(base_name="ta", location=tmproot, log_pitch=8)
-        # thresholds: no hops except at the two forced-collapse steps, where a hop is attempted in the same step
-        zl = [2.0] * 100; zl[20] = 1e-12; zl[50] = 1e-12
-        integ = ["exp", "rk4"][k % 2]
-        tr = mudslide.AugmentedFSSH(M[mname](), [-3.0], [12.0], 0, dt=10.0, max_steps=80, tracer=tracer, zeta_list=zl, seed_sequence=rng.randrange(2 ** 31),
-                                    augmented_integration=integ)
-        state = {"collapsed": 0}
-        # every moment propagation must depend only on the values of its inputs (no hidden shared state):
-        # replay each call on a shallow twin holding private copies and compare
-        import copy as _cp
-        def purity_wrap(name, tr=tr):
-            orig = getattr(tr, name)
-            cls_fn = getattr(mudslide.AugmentedFSSH, name)
-            def wrapped(le, te):
-                twin = _cp.copy(tr); twin.delR = tr.delR.copy(); twin.delP = tr.delP.copy(); twin.rho = tr.rho.copy()
-                twin.velocity = tr.velocity.copy(); twin.last_velocity = tr.last_velocity.copy()
-                orig(le, te)
-                cls_fn(twin, le, te)
-                if not (np.allclose(twin.delR, tr.delR, rtol=1e-10, atol=1e-14) and np.allclose(twin.delP, tr.delP, rtol=1e-10, atol=1e-14)):
-                    bad.append(dict(failed="moment propagation after a collapse/hop depends only on the current moments, density matrix and electronics (%s on the live object differs from the same call on private copies)" % name,
-                                    case=dict(model=mname, step=tr.nsteps, backend=backend, integrator=integ)))
-            setattr(tr, name, wrapped)
-        purity_wrap("advance_delR"); purity_wrap("advance_delP")
-        orig_gamma = tr.gamma_collapse
-        tr.gamma_collapse = lambda el, og=orig_gamma: np.abs(og(el)) + (1.0 if tr.nsteps in (20, 50) else 0.0) * (np.arange(2) != tr.state)
-        orig_sh = tr.surface_hopping
-        def sh(le, te, tr=tr, orig_sh=orig_sh, state=state):
-            force = tr.nsteps in (20, 50)
-            orig_sh(le, te)
-            if force:
-                want = np.zeros((2, 2), dtype=complex); want[tr.state, tr.state] = 1.0
-                if not (np.array_equal(tr.rho, want) and np.all(tr.delR == 0) and np.all(tr.delP == 0)):
-                    bad.append(dict(failed="after a collapse the moments are zero and the density matrix is the pure active state", case=dict(model=mname, step=tr.nsteps, backend=backend)))
-                state["collapsed"] += 1
-        tr.surface_hopping = sh
-        try:
-            log = tr.simulate()
-        except Exception as ex:
-            bad.append(dict(failed="collapse could not be recorded with the %s trace back-end (%s: %s)" % (backend, type(ex).__name__, ex), case=dict(model=mname))); continue
-        if backend == "memory":
-            nev = len(log.events.get("collapse", []))
-        else:
-            import yaml
-            evs = yaml.safe_load(open(os.path.join(tmproot, log.event_log))) or []
-            nev = sum(1 for e in evs if "removed" in e)
-        res.count("collapse/" + backend, state["collapsed"])
-        if nev < state["collapsed"] or state["collapsed"] == 0:
-            bad.append(dict(failed="every collapse is recorded as an event in the trace store in use (%d collapses forced, %d events, %s)" % (state["collapsed"], nev, backend), case=dict(model=mname)))
-    shutil.rmtree(tmproot, ignore_errors=True)
+    collapse_probe(res, rng, tier, bad)
     failing, errors = run_case_check("C11", PRELUDE, "case11", "chk11", cases, per_file=12, timeout=1500)
     for e in errors:
         res.violation("model evaluation failed (coqc)", dict(kind="coqc-error", log=e, no_failing_input_found=True))
